@@ -121,7 +121,13 @@ def object_digest(capellambse, mdl, elem, with_backrefs: bool) -> dict:
     except Exception as e:  # noqa: BLE001
         d["layer"] = f"!{type(e).__name__}"
     try:
-        d["find_references"] = sorted(f"{getattr(o, 'uuid', '?')}.{attr}[{idx}]" for o, attr, idx in mdl.find_references(obj))
+        refs = []
+        for o, attr, idx in mdl.find_references(obj):
+            acc = getattr(type(o), attr, None)
+            if type(acc).__name__ in SCAN_BASED:  # position in a list that is assembled by scanning the files
+                idx = "*"
+            refs.append(f"{getattr(o, 'uuid', '?')}.{attr}[{idx}]")
+        d["find_references"] = sorted(refs)
     except Exception as e:  # noqa: BLE001
         d["find_references"] = f"!{type(e).__name__}"
     for name in relation_names(capellambse, type(obj)):
@@ -270,16 +276,16 @@ def compare_layouts(ctx: Ctx, out: Outcome, spec: dict, mono, frag, lay, objs_bu
                 holders = {e.get("id") for e in els_f.values() if any(c.get("href") is not None for c in e)}
                 diff = set(a) ^ set(b) if isinstance(a, list) and isinstance(b, list) else {"?"}
                 cls += "-differs|" + ("referrer-holds-a-placeholder" if diff and all(x.split(".")[0] in holders for x in diff) else "other")
-                out.find(f"api|{cls}", f"{els_m[i].get(XSI_T)} {i}: {k} monolithic={str(dm.get(k))[:1200]} fragmented={str(df.get(k))[:1200]}",
+                out.find(f"api|{cls}", f"{els_m[i].get(XSI_T)} {i}: {k} monolithic={str(dm.get(k))[:6000]} fragmented={str(df.get(k))[:6000]}",
                          {"kind": "object", "layout": spec, "id": i, "what": k})
                 continue
             if cls == "relation":
                 acc = getattr(type(mono.by_uuid(i)), k[1:], None)
                 cls += "-differs|" + type(acc).__name__ + "|" + raw_read_cause(capellambse, els_m, roots)
-                out.find(f"api|{cls}", f"{els_m[i].get(XSI_T)} {i}: {k} monolithic={str(dm.get(k))[:1200]} fragmented={str(df.get(k))[:1200]}",
+                out.find(f"api|{cls}", f"{els_m[i].get(XSI_T)} {i}: {k} monolithic={str(dm.get(k))[:6000]} fragmented={str(df.get(k))[:6000]}",
                          {"kind": "object", "layout": spec, "id": i, "what": k})
                 continue
-            out.find(f"api|{cls}-differs", f"{els_m[i].get(XSI_T)} {i}: {k} monolithic={str(dm.get(k))[:1200]} fragmented={str(df.get(k))[:1200]}",
+            out.find(f"api|{cls}-differs", f"{els_m[i].get(XSI_T)} {i}: {k} monolithic={str(dm.get(k))[:6000]} fragmented={str(df.get(k))[:6000]}",
                      {"kind": "object", "layout": spec, "id": i, "what": k})
     # raw loader navigation for every element
     for i in ids:
@@ -628,7 +634,7 @@ def gen_specs(ctx: Ctx) -> list[dict]:
     # layouts built for edit histories: (a) a fragment below an element that can be moved to a same-typed twin
     # of its parent, (b) a fragment around an element that is referenced from outside the fragment
     for model, res in (SMALL[: ctx.pick(2, 4)] + LARGE[: ctx.pick(1, 3)]):
-        specs += edit_witness_specs(ctx, model, res, ctx.pick(2, 6))
+        specs += edit_witness_specs(ctx, model, res, ctx.pick(2, 4))
     large = LARGE[: ctx.pick(1, 5)]
     for model, res in large:
         for _ in range(ctx.pick(2, 5)):
@@ -709,14 +715,30 @@ def run_layout(ctx: Ctx, out: Outcome, spec: dict, si: int, model_cases: list | 
         shutil.rmtree(base, ignore_errors=True)
         return
     small = spec.get("small", False)
-    compare_layouts(ctx, out, spec, mono, frag, lay_f, objs_budget=ctx.pick(60 if small else 25, 400 if small else 60),
+    # layouts that cut out an element which some accessor reads without following placeholders (recorded finding):
+    # whatever differs there carries that cause in its signature
+    els0 = {e.get("id"): e for e in semantic_elements(mono)}
+    cause = raw_read_cause(capellambse, els0, {r for r in lay_f.fragments.values() if r in els0})
+    local = Outcome()
+    compare_layouts(ctx, local, spec, mono, frag, lay_f, objs_budget=ctx.pick(60 if small else 25, 400 if small else 60),
                     with_backrefs=small, tag=tag)
     if model_cases is not None:
         from props import c06_model
 
         c06_model.collect(ctx, out, spec, mono, frag, lay_f, model_cases, tag)
-    if spec.get("hints") or si % ctx.pick(3, 2) == 0:
-        edits_and_save(ctx, out, spec, mono, frag, lay_m, lay_f, tag)
+    if spec.get("hints") or si % ctx.pick(3, 5) == 0:
+        edits_and_save(ctx, local, spec, mono, frag, lay_m, lay_f, tag)
+    out.evaluations += local.evaluations
+    out.distinct |= local.distinct
+    for b, n in local.branches.items():
+        out.hit(b, n)
+    suffix = "|" + cause
+    for f in local.findings:
+        sig = f.signature
+        if cause != "structural-cut" and cause not in sig and "referrer-holds-a-placeholder" not in sig:
+            sig += suffix
+        for _ in range(local.extra.get("finding_counts", {}).get(f.signature, 1)):
+            out.find(sig, f.what, f.replay)
     shutil.rmtree(base, ignore_errors=True)
 
 
